@@ -98,6 +98,7 @@ type Cfg struct {
 	PlainPct int // share of plain (non-generator) consumer functions
 	Prefix   string // prefix of generated function and file names
 	NoHelp   bool   // do not emit the helper declarations (another program of the same package has them)
+	Tick     bool   // expressions may call the helper tick() of the plain helper file
 }
 
 type G struct {
@@ -110,6 +111,8 @@ type G struct {
 	feat   map[string]bool
 	needPick bool
 	needHelpers bool
+	topCtr int // function-level loop counters c0, c1, ... declared at the top of the body
+	varStyle bool // this function declares its int locals with var, never with :=
 }
 
 type fctx struct {
@@ -205,6 +208,16 @@ func (c *fctx) expr() *X {
 			}
 			return call
 		}
+	}
+	if c.g.cfg.Tick && r.Chance(1, 6) {
+		// a call of a package-level helper declared in a plain sibling file (the optimise stage
+		// reloads the rewritten files only, so it does not know this callee)
+		c.g.mark("call_of_helper_from_plain_file")
+		var a *X = lit(r.Range(0, 5))
+		if r.Chance(1, 3) {
+			a = c.pure(1)
+		}
+		return &X{K: XCall, Name: "tick", Args: []*X{a}}
 	}
 	e := c.pure(2)
 	if r.Intn(100) < c.g.cfg.EffPct {
@@ -347,10 +360,36 @@ func (c *fctx) stmt() []*S {
 	k := c.pickKind()
 	switch k {
 	case SDecl:
+		// 'p, q := e1, e2' re-using a variable declared in this very block
+		if !c.g.varStyle && r.Chance(1, 8) {
+			var here []string
+			for _, n := range c.sc.order {
+				if c.sc.names[n] == vInt {
+					here = append(here, n)
+				}
+			}
+			if len(here) > 0 {
+				old := here[r.Intn(len(here))]
+				name := c.fresh(intPool)
+				e1, e2 := c.pure(1).str(Mode{}), c.pure(1).str(Mode{})
+				c.sc.declare(name, vInt)
+				c.g.mark("define_reusing_a_variable_of_the_block")
+				text := fmt.Sprintf("%s, %s := %s, %s\n_ = %s", old, name, e1, e2, name)
+				if r.Bool() {
+					text = fmt.Sprintf("%s, %s := %s, %s\n_ = %s", name, old, e2, e1, name)
+				}
+				return []*S{{K: SRaw, ID: c.g.id(), Src: text}}
+			}
+		}
 		name := c.fresh(intPool)
 		e := c.expr()
 		c.sc.declare(name, vInt)
-		return []*S{{K: SDecl, ID: c.g.id(), Name: name, E: e}}
+		d := &S{K: SDecl, ID: c.g.id(), Name: name, E: e}
+		if c.g.varStyle || r.Chance(1, 8) {
+			d.Type = "int" // var name int = e
+			c.g.mark("var_declaration_form")
+		}
+		return []*S{d}
 	case SAssign:
 		vars := c.sc.visible(vInt)
 		return []*S{{K: SAssign, ID: c.g.id(), Name: vars[r.Intn(len(vars))], Op: []string{"=", "+=", "-="}[r.Intn(3)], E: c.expr()}}
@@ -574,7 +613,12 @@ func (c *fctx) forStmt() []*S {
 		d.sc.declare(ctr, vRO)
 		loop.E = bin(v(ctr), "<", hi())
 		loop.Post = &S{K: SIncDec, Name: ctr, Op: "++"}
-		loop.Body = d.block(nb)
+		if c.gen && !c.inLit && c.depth < c.g.cfg.MaxDepth-1 && r.Chance(1, 6) {
+			loop.Body = append(d.initlessLoop(1+r.Intn(2)), d.block(nb)...)
+			c.g.mark("initless_loop_first_in_loop_body")
+		} else {
+			loop.Body = d.block(nb)
+		}
 		c.g.mark("for_three_clause")
 		return []*S{loop}
 	case 1: // i := lo; for i < hi { i++; body }
@@ -585,6 +629,19 @@ func (c *fctx) forStmt() []*S {
 		c.g.mark("for_cond_only")
 		return []*S{decl, loop}
 	case 2: // i := lo; for { if i >= hi { break|return }; i++; body }
+		if r.Chance(1, 3) {
+			// three-clause loop without a condition: for i := lo; ; i++ { if i >= hi { break }; body }
+			d.sc.declare(ctr, vRO)
+			loop.Init = &S{K: SDecl, Name: ctr, E: lit(r.Intn(2))}
+			loop.Post = &S{K: SIncDec, Name: ctr, Op: "++"}
+			guard := &S{K: SIf, ID: c.g.id(), E: bin(v(ctr), ">=", hi()), Body: []*S{{K: SBreak}}}
+			loop.Body = append([]*S{guard}, d.block(nb)...)
+			c.g.mark("for_three_clause_without_condition")
+			return []*S{loop}
+		}
+		if c.gen && !c.inLit && r.Chance(1, 3) {
+			return c.initlessLoop(nb)
+		}
 		c.sc.declare(ctr, vRO)
 		decl := &S{K: SDecl, ID: c.g.id(), Name: ctr, E: lit(r.Intn(2))}
 		exit := &S{K: SBreak}
@@ -631,9 +688,58 @@ func (c *fctx) forStmt() []*S {
 			c.g.mark("for_yielding_post")
 			d.innerSwitchYield = false
 		}
+		if outs := c.sc.visible(vInt); loop.Post.K == SYield && len(outs) > 0 && r.Chance(1, 3) {
+			// the body re-declares, at its top level, an outer variable that the post reads
+			o := outs[r.Intn(len(outs))]
+			e := d.sub()
+			e.sc.declare(o, vInt)
+			sh := &S{K: SDecl, ID: c.g.id(), Name: o, E: bin(c.pure(1), "+", lit(100))}
+			if c.g.varStyle || r.Bool() {
+				sh.Type = "int"
+			}
+			loop.Body = append([]*S{{K: SIncDec, Name: ctr, Op: "++"}, sh}, e.stmts(nb)...)
+			loop.Post.E = bin(v(o), "+", lit(r.Range(0, 3)))
+			c.g.mark("for_post_reads_variable_shadowed_in_body")
+			return []*S{decl, loop}
+		}
 		loop.Body = append([]*S{{K: SIncDec, Name: ctr, Op: "++"}}, d.block(nb)...)
+		if loop.Post.K == SYield && r.Chance(1, 2) {
+			// let the post read an OUTER variable whose name the body re-declares at its top level
+			outer := map[string]bool{}
+			for _, n := range c.sc.visible(vInt, vRO) {
+				outer[n] = true
+			}
+			for _, b := range loop.Body {
+				if b.K == SDecl && outer[b.Name] {
+					loop.Post.E = bin(v(b.Name), "+", lit(r.Range(0, 3)))
+					c.g.mark("for_post_reads_variable_shadowed_in_body")
+					break
+				}
+			}
+		}
 		return []*S{decl, loop}
 	}
+}
+
+// initlessLoop: a three-clause loop WITHOUT init over a counter declared at the top of the
+// function and reset after the loop. Placed first in an enclosing loop body, the very same
+// loop value (no Delay in front of it after optimisation) is executed once per outer iteration.
+func (c *fctx) initlessLoop(nb int) []*S {
+	r := c.g.r
+	d := c.sub()
+	d.loops++
+	d.sws = 0
+	k := c.g.topCtr
+	c.g.topCtr++
+	name := fmt.Sprintf("c%d", k)
+	d.sc.declare(name, vRO)
+	loop := &S{K: SFor, ID: c.g.id(), E: bin(v(name), "<", lit(r.Range(1, 3))), Post: &S{K: SIncDec, Name: name, Op: "++"}}
+	loop.Body = d.block(nb)
+	if !hasYield(loop.Body) && r.Chance(2, 3) {
+		loop.Body = append([]*S{{K: SYield, ID: c.g.id(), E: bin(v(name), "+", lit(r.Range(10, 40)))}}, loop.Body...)
+	}
+	c.g.mark("for_without_init_over_function_level_counter")
+	return []*S{loop, {K: SAssign, ID: c.g.id(), Name: name, Op: "=", E: lit(0)}}
 }
 
 func (c *fctx) funcLit() []*S {
@@ -830,6 +936,7 @@ func baseCfg(profile string) Cfg {
 		SBreak: 5, SContinue: 4, SReturn: 2}
 	c.ForForm = [5]int{5, 3, 3, 1, 3}
 	c.TypeSw = true
+	c.Tick = true
 	switch profile {
 	case "control":
 		c.W[SFuncLit] = 2
@@ -935,7 +1042,9 @@ func GenProg(r *prng.R, cfg Cfg, pkg string) *Prog {
 		g.funcs = append(g.funcs, f)
 	}
 	if !cfg.NoHelp {
-		g.prog.Files[0].Decls = append(g.prog.Files[0].Decls, PickDecl, HelperDecls)
+		// the helpers live in a plain file (no API import): the compiler skips it and the
+		// optimise stage reloads a partial package, as with hand-written sibling files
+		g.prog.Files = append(g.prog.Files, &File{Name: cfg.Prefix + "helpers.go", Decls: []string{PickDecl, HelperDecls}})
 	}
 	if cfg.Profile == "consumer" {
 		src, ref, fs := consumerTemplates(r, g.nextTag)
@@ -1051,9 +1160,37 @@ func (g *G) genFunc(i int) *Func {
 	}
 	left := 4 + r.Intn(g.cfg.MaxStmts)
 	c := &fctx{g: g, gen: true, elem: "int", named: f.Named, nilRet: !f.Named, sc: sc.child(), left: &left}
+	g.topCtr = 0
+	g.varStyle = r.Chance(1, 4)
 	f.Body = c.stmts(left)
 	if !hasYield(f.Body) {
 		f.Body = append([]*S{{K: SYield, ID: g.id(), E: lit(7)}}, f.Body...)
+	}
+	for k := g.topCtr - 1; k >= 0; k-- {
+		f.Body = append([]*S{{K: SDecl, ID: g.id(), Name: fmt.Sprintf("c%d", k), E: lit(0)}}, f.Body...)
+	}
+	if r.Chance(1, 10) && len(g.funcs) > 0 {
+		// 'return <expr>' with a non-nil operand: the operand is still evaluated, then the generator ends
+		var cands []*Func
+		for _, o := range g.funcs {
+			if o.Gen && !o.TParam && o.Recv == "" && o.Elem == "int" {
+				cands = append(cands, o)
+			}
+		}
+		if len(cands) > 0 {
+			o := cands[r.Intn(len(cands))]
+			call := &X{K: XIterCall, Name: o.Name}
+			for i := range o.Params {
+				var a *X = lit(o.Args[i][r.Intn(len(o.Args[i]))])
+				if i == 0 {
+					a = &X{K: XV, Tag: g.nextTag(), A: a}
+				}
+				call.Args = append(call.Args, a)
+			}
+			f.Body = append(f.Body, &S{K: SReturn, ID: g.id(), E: call, RetIter: true})
+			g.feat["CALL:"+o.Name] = true
+			g.mark("return_with_non_nil_operand")
+		}
 	}
 	f.Body = append(f.Body, &S{K: SReturn, ID: g.id(), Nil: !f.Named})
 	for k, n := range g.quarantine(f.Body) {
